@@ -494,6 +494,34 @@ example : runProgramRepaired 30 langExample = .ok ("(D,p)q(o,y)".toList.map Char
 example : (texRun fragOk 12 ⟨[cs "def", cs "b", bgT, lt 'p', lt 'q', egT, cs "expandafter", cs "relax", cs "b"], primTable, []⟩).toOption
     = some [112, 113] := by rfl
 
+/-! ## `\ifx` (NF-prog 4) -/
+
+/-- **`\ifx` compares as TeX does.**  For two operands that TeX classifies as two character tokens, or as two macros without
+    parameter text whose replacement texts are plain characters (`ifxKind`; NF-prog 4), the values the code's `XTok` reader
+    computes (`xtokOfTok`: the token itself, resp. the children of the fragment `expandTokens` returns) compare equal
+    (`ifValEq`: tokens by category and character, fragments child by child AND by length) exactly when TeX says the two tokens
+    agree — for texts of any length, in particular when one text is a proper prefix of the other.
+    Not covered by a theorem (stated nowhere stronger, tied by the `prog` stream): the branch selection of
+    `TeX.processIfContent` (`ifScan`/`ifChoose` against `texBranches`), which is C03's subject. -/
+theorem ifx_compare_is_tex_partial (fx : Bool) (env : Env) (tbl : Table) (hg : Good fx env tbl) (t1 t2 : Tok)
+    (k1 k2 : IfxKind) (b : Bool)
+    (h1 : ifxKind tbl t1 = some k1) (h2 : ifxKind tbl t2 = some k2) (hb : ifxAgree k1 k2 = some b) :
+    ∃ v1 v2, xtokOfTok env t1 = .ok v1 ∧ xtokOfTok env t2 = .ok v2 ∧ ifValEq v1 v2 = b :=
+  ifx_compare_is_tex fx env tbl hg t1 t2 k1 k2 b h1 h2 hb
+
+/-- a text and a proper extension of it are different, a text and itself are equal, the empty text differs from a non-empty one -/
+example : ifValEq (ifValOf [lt 'x', lt 'y']) (ifValOf [lt 'x', lt 'y', lt 'z']) = false ∧
+          ifValEq (ifValOf [lt 'x', lt 'y']) (ifValOf [lt 'x', lt 'y']) = true ∧
+          ifValEq (ifValOf []) (ifValOf [lt 'p', lt 'q']) = false := by decide
+
+/-- `\def\a{xy}\def\c{xyz}\ifx\a\c T\else F\fi\ifx\a\a S\fi` prints `FS`, in the model and in TeX -/
+def ifxExample : List Tok :=
+  [cs "def", cs "a", bgT, lt 'x', lt 'y', egT, cs "def", cs "c", bgT, lt 'x', lt 'y', lt 'z', egT,
+   cs "ifx", cs "a", cs "c", lt 'T', cs "else", lt 'F', cs "fi", cs "ifx", cs "a", cs "a", lt 'S', cs "fi"]
+
+example : (texProgramC 30 ifxExample).toOption = some [70, 83] := by rfl
+example : runProgram 40 ifxExample = .ok [70, 83] := by rfl
+
 /-! ## statement kept at full strength, not proved -/
 
 /-- definitions of names that the code treats specially are outside NF-prog (the statement is false there: redefining
